@@ -196,6 +196,11 @@ fn gen_len_raw(r: &mut Rng) -> usize {
 }
 
 pub fn short_len(r: &mut Rng) -> usize {
+    // now and then a piece that is long compared with the usual targets (longer than the tail it
+    // is inserted before, longer than any block a chunked implementation might use)
+    if r.chance(1, 40) && MAX_TEXT_LEN.load(std::sync::atomic::Ordering::Relaxed) >= 1000 {
+        return r.range(100, 700);
+    }
     match r.below(10) {
         0 => 0,
         1..=5 => r.range(1, 4),
